@@ -4,7 +4,6 @@ import (
 	"context"
 	"errors"
 	"fmt"
-	"io"
 	"time"
 
 	"vsim/wire"
@@ -27,6 +26,7 @@ type RawConn struct {
 	c      *Conn
 	nextID uint32
 	Got    []*wire.Frame // every frame read so far
+	rbuf   []byte
 }
 
 func (w *World) newRawPeer(name, host string) *RawPeer {
@@ -94,28 +94,35 @@ func (c *RawConn) Send(b []byte) error {
 	return err
 }
 
-// ReadFrame reads one frame (waiting at most d of simulated time).
+// ReadFrame reads one frame (waiting at most d of simulated time). Bytes that
+// arrived before the deadline stay buffered: a timeout never desynchronises
+// the stream.
 func (c *RawConn) ReadFrame(d time.Duration) (*wire.Frame, error) {
 	c.c.SetReadDeadline(time.Now().Add(d))
 	defer c.c.SetReadDeadline(time.Time{})
-	hdr := make([]byte, wire.HeaderSize)
-	if _, err := io.ReadFull(c.c, hdr); err != nil {
-		return nil, err
+	for {
+		if len(c.rbuf) >= wire.HeaderSize {
+			sz := wire.FrameSize(c.rbuf)
+			if sz < wire.HeaderSize {
+				return nil, fmt.Errorf("raw: peer sent frame size %d", sz)
+			}
+			if len(c.rbuf) >= sz {
+				raw := append([]byte(nil), c.rbuf[:sz]...)
+				c.rbuf = c.rbuf[sz:]
+				f, err := wire.Decode(raw)
+				if f != nil {
+					c.Got = append(c.Got, f)
+				}
+				return f, err
+			}
+		}
+		tmp := make([]byte, 65536)
+		n, err := c.c.Read(tmp)
+		c.rbuf = append(c.rbuf, tmp[:n]...)
+		if err != nil {
+			return nil, err
+		}
 	}
-	sz := wire.FrameSize(hdr)
-	if sz < wire.HeaderSize {
-		return nil, fmt.Errorf("raw: peer sent frame size %d", sz)
-	}
-	raw := make([]byte, sz)
-	copy(raw, hdr)
-	if _, err := io.ReadFull(c.c, raw[wire.HeaderSize:]); err != nil {
-		return nil, err
-	}
-	f, err := wire.Decode(raw)
-	if f != nil {
-		c.Got = append(c.Got, f)
-	}
-	return f, err
 }
 
 var stdInitParams = func(hostPort, proc string) []wire.KV {
